@@ -207,6 +207,14 @@ def lv(L):
     return -1 if L is None else L
 
 
+def lvs(levels):
+    return "(%s)" % ", ".join("omitted" if L is None else str(L) for L in levels)
+
+
+def lt(L):
+    return "" if L is None else ", level=%r" % (L,)
+
+
 class Ctx(object):
     """collects failures of one case; restores arguments that a wrong implementation modified"""
 
@@ -237,7 +245,7 @@ def check_inter_result(C, ds, L, got, ids, tag="intersection"):
     if got != exp:
         bad = [d for d in ds if not contained(got, d, level)]
         C.fail(tag + ("/not-contained-in-argument" if bad else "/not-greatest"),
-               "intersection(%s, level=%r) = %r, expected %r" % (", ".join(map(repr, ds)), L, got, exp))
+               "intersection(%s%s) = %r, expected %r" % (", ".join(map(repr, ds)), lt(L), got, exp))
     shared = mut_ids(got, set()) & ids
     if shared:
         C.fail(tag + "/not-a-deep-copy", "intersection(%s, level=%r) = %r shares %d mutable object(s) with its arguments"
@@ -252,7 +260,7 @@ def pair_checks(a, b, L, ra=None, rb=None, ids=None, upd=True):
     if ids is None:
         ids = mut_ids(b, mut_ids(a, set()))
     level = lv(L)
-    args = "%s, %s, level=%r" % (ra, rb, L)
+    args = "%s, %s%s" % (ra, rb, lt(L))
     # --- intersection
     I = None
     try:
@@ -322,7 +330,7 @@ def pair_checks(a, b, L, ra=None, rb=None, ids=None, upd=True):
     return C.fails
 
 
-def triple_checks(a, b, c, L, reprs=None, ids=None):
+def triple_checks(a, b, c, L, reprs=None, ids=None, ab=None, bc=None):
     """associativity, n-ary == folded == reference, deep copy, arguments unmodified"""
     C = Ctx()
     ds = [a, b, c]
@@ -331,13 +339,15 @@ def triple_checks(a, b, c, L, reprs=None, ids=None):
         ids = set()
         for x in ds:
             mut_ids(x, ids)
-    args = "%s, level=%r" % (", ".join(reprs), L)
+    args = "%s%s" % (", ".join(reprs), lt(L))
     try:
         n = call_inter(ds, L)
         C.unmodified("intersection", ds, reprs)
         check_inter_result(C, ds, L, n, ids, "intersection/n-ary")
-        ab = call_inter([a, b], L)
-        bc = call_inter([b, c], L)
+        if ab is None:
+            ab = call_inter([a, b], L)
+        if bc is None:
+            bc = call_inter([b, c], L)
         left = call_inter([ab, c], L)
         right = call_inter([a, bc], L)
         C.unmodified("intersection", ds, reprs)
@@ -761,12 +771,22 @@ def body(R):
                     report(R, fails, "replay_pair", [clone(a), clone(b), L], {"d1": clone(a), "d2": clone(b), "level": L})
 
     def run_triples(dom, triples, levels):
+        memo = {}                 # real two-argument intersections of the domain (fresh results, only read afterwards)
+
+        def inter2(i, j, L):
+            key = (i, j, L)
+            if key not in memo:
+                try:
+                    memo[key] = call_inter([dom.d[i], dom.d[j]], L)
+                except Exception:
+                    return None
+            return memo[key]
         for i, j, k in triples:
             a, b, c = dom.d[i], dom.d[j], dom.d[k]
             ids = dom.ids[i] | dom.ids[j] | dom.ids[k]
             reprs = [dom.r[i], dom.r[j], dom.r[k]]
             for L in levels:
-                fails = triple_checks(a, b, c, L, reprs, ids)
+                fails = triple_checks(a, b, c, L, reprs, ids, inter2(i, j, L), inter2(j, k, L))
                 R.case(True, {"dicts": [a, b, c], "level": L})
                 if fails:
                     report(R, fails, "replay_triple", [clone(a), clone(b), clone(c), L],
@@ -778,10 +798,11 @@ def body(R):
             "ALL %d dictionaries over the key alphabet {a}, depth <= 3, leaves %r; ALL %d ordered pairs; every level in "
             "(omitted, -1, 0, 1, 2, 3, 4)" % (A.n, LEAVES, A.n ** 2), True)
     run_pairs(A, itertools.product(range(A.n), repeat=2), LEVELS, None)
+    tl = (None, 0, 1, 2, 3) if thorough else (None, 1, 2)
     R.scope("triples: associativity, n-ary == folded == reference, greatest among all candidates",
             "same %d dictionaries, ALL %d ordered triples (the third one is also the candidate of the 'greatest' law); "
-            "levels (omitted, 0, 1, 2, 3)" % (A.n, A.n ** 3), True)
-    run_triples(A, itertools.product(range(A.n), repeat=3), (None, 0, 1, 2, 3))
+            "levels %s" % (A.n, A.n ** 3, lvs(tl)), True)
+    run_triples(A, itertools.product(range(A.n), repeat=3), tl)
 
     # ---- B: two keys, depth 1, all leaves
     B = Domain(build("ab", 1, LEAVES))
@@ -790,16 +811,21 @@ def body(R):
             % (B.n, LEAVES, B.n ** 2), True)
     run_pairs(B, itertools.product(range(B.n), repeat=2), (None, 0, 1, 2), None)
     Bs = Domain(build("ab", 1, SMALL))
+    Bt = Domain(build("ab", 1, [0, None, 1, {}]))
     if thorough:
         R.scope("triples: associativity, n-ary, greatest",
-                "ALL %d ordered triples of the %d depth-1 dictionaries over {a, b} with leaves %r; levels (omitted, 1)"
+                "ALL %d ordered triples of the %d depth-1 dictionaries over {a, b} with leaves %r; level omitted"
                 % (B.n ** 3, B.n, LEAVES), True)
-        run_triples(B, itertools.product(range(B.n), repeat=3), (None, 1))
+        run_triples(B, itertools.product(range(B.n), repeat=3), (None,))
+        R.scope("triples: associativity, n-ary, greatest",
+                "ALL %d ordered triples of the %d depth-1 dictionaries over {a, b} with leaves %r; levels (1, 2)"
+                % (Bs.n ** 3, Bs.n, SMALL), True)
+        run_triples(Bs, itertools.product(range(Bs.n), repeat=3), (1, 2))
     else:
         R.scope("triples: associativity, n-ary, greatest",
                 "ALL %d ordered triples of the %d depth-1 dictionaries over {a, b} with leaves %r; levels (omitted, 1)"
-                % (Bs.n ** 3, Bs.n, SMALL), True)
-        run_triples(Bs, itertools.product(range(Bs.n), repeat=3), (None, 1))
+                % (Bt.n ** 3, Bt.n, [0, None, 1, {}]), True)
+        run_triples(Bt, itertools.product(range(Bt.n), repeat=3), (None, 1))
 
     # ---- C: two keys, depth 2, leaves 0/1/{}
     Cd = Domain(build("ab", 2, TINY))
@@ -810,12 +836,12 @@ def body(R):
         run_pairs(Cd, itertools.product(range(Cd.n), repeat=2), (None, 0, 1, 2, 3), None)
         n3 = 60000
     else:
-        n2 = 9000
+        n2 = 5000
         R.scope("pairs: intersection/difference/reconstruct/update_recursively laws",
                 "%d seeded random ordered pairs of the %d dictionaries over {a, b}, depth <= 2, leaves %r; levels (omitted, 1, 2)"
                 % (n2, Cd.n, TINY), False)
         run_pairs(Cd, [(rng.randrange(Cd.n), rng.randrange(Cd.n)) for _ in range(n2)], (None, 1, 2), None)
-        n3 = 5000
+        n3 = 4000
     R.scope("triples: associativity, n-ary, greatest",
             "%d seeded random ordered triples of the same %d dictionaries; levels (omitted, 2)" % (n3, Cd.n), False)
     run_triples(Cd, [(rng.randrange(Cd.n), rng.randrange(Cd.n), rng.randrange(Cd.n)) for _ in range(n3)], (None, 2))
@@ -896,15 +922,14 @@ def body(R):
                     report(R, fails, "replay_nested", [key, clone(d), clone(o)], {"key": key, "d": clone(d), "other": clone(o)})
 
     # ---- users
-    U = Domain(build("ab", 2, [0, 1]) + build("a", 3, SMALL))       # 49 + 16 nested contexts
+    U = Domain(build("ab", 2, [0, 1]) + build("a", 3, SMALL))       # 121 + 16 nested contexts
     n_u = U.n
-    trip = list(itertools.product(range(n_u), repeat=3))
-    if not thorough:
-        trip = rng.sample(trip, 6000)
+    n_trip = 200000 if thorough else 6000
+    trip = [(rng.randrange(n_u), rng.randrange(n_u), rng.randrange(n_u)) for _ in range(n_trip)]
     R.scope("Split static context (LenaSplit._get_context): intersection of the branch contexts, deep copy",
-            "%d context lists: (), ALL singles and ALL ordered pairs of %d nested contexts (depth <= 3), %s ordered triples; "
-            "a branch without static context inserted at a cycling position"
-            % (1 + n_u + n_u ** 2 + len(trip), n_u, "ALL" if thorough else "6000 seeded random"), thorough)
+            "%d context lists: (), ALL singles and ALL ordered pairs of %d nested contexts (depth <= 3), %d seeded random "
+            "ordered triples; a branch without static context inserted at a cycling position"
+            % (1 + n_u + n_u ** 2 + len(trip), n_u, n_trip), False)
     n = 0
     for idx in itertools.chain([()], ((i,) for i in range(n_u)), itertools.product(range(n_u), repeat=2), trip):
         ctxs = [U.d[i] for i in idx]
